@@ -31,7 +31,11 @@ def gen_program(rng, prop, tier, run_index):
            'd': int(rng.integers(1, 5)), 'mapseed': int(rng.integers(0, 2**31)),
            'api': str(rng.choice(['with_state', 'design_only'], p=[0.6, 0.4])),
            'tight': bool(rng.random() < 0.5), 'fault_mode': fault_mode,
-           'path_dependent': bool(rng.random() < 0.6)}
+           'path_dependent': bool(rng.random() < 0.6),
+           # magnitude of the cotangent (weight of the quantity of interest) and solver radius: the adjoint
+           # solve must be linear in the cotangent whatever the forward trust-region settings are
+           'qmag': float(10.0 ** rng.uniform(-2, 3)) if rng.random() < 0.6 else 1.0,
+           'tr_size': float(10.0 ** rng.uniform(-2, 1)) if rng.random() < 0.4 else None}
     K = int(rng.integers(1, 6))
     ops = []
     for k in range(K):
@@ -57,7 +61,8 @@ def repair(program):
 
 def simplify(program):
     cfg = program['config']
-    for key, val in (('nonlinear_p', False), ('softplus', False), ('path_dependent', False), ('tight', True), ('d', 1)):
+    for key, val in (('nonlinear_p', False), ('softplus', False), ('path_dependent', False), ('tight', True), ('d', 1),
+                     ('qmag', 1.0), ('tr_size', None)):
         if cfg.get(key) != val:
             yield dict(program, config=dict(cfg, **{key: val}))
     for n in (1, 2):
@@ -104,7 +109,7 @@ def run_program(program, ctx):
         mk[4] = (float(rm.normal() * 0.3), rm.normal(size=d) * op['mag'])
         mk['S'] = rm.normal(size=(M, n)) * 0.5
         maps.append(mk)
-    qw = [rm.normal(size=n) for _ in range(K)]
+    qw = [rm.normal(size=n) * float(cfg.get('qmag', 1.0)) for _ in range(K)]
     x0 = np.random.Generator(np.random.PCG64(int(cfg['x0seed']))).normal(size=n)
     plan = seams.chol_plan(ctx)
     monitor_off = True
@@ -123,7 +128,8 @@ def run_program(program, ctx):
     obj.scaling, obj.invScaling = 1.0, 1.0
     tight = bool(cfg['tight'])
     st = ES.get_settings(tol=1e-11 if tight else 1e-8, cg_inexact_solve_ratio=1e-10 if tight else 1e-5,
-                         debug_info=False, max_cg_iters=max(50, 4 * n))
+                         debug_info=False, max_cg_iters=max(50, 4 * n),
+                         **({'tr_size': float(cfg['tr_size'])} if cfg.get('tr_size') else {}))
 
     def slot_values(k, theta, Uprev):
         """jax: parameter slots of step k as functions of theta and the previous solution."""
